@@ -1118,6 +1118,32 @@ def run(ck):
                 report(g.ops, backend, compress, fails, "focused %s/%s" % target)
                 stop = True
                 break
+    # ---- (a') every single-child container: fill it, delete it (CGNS_DELETE_CHILD arm), create it again
+    for mi, m in enumerate(MK):
+        if stop:
+            break
+        r = route_ops(m[2])
+        if r is None:
+            continue
+        ops, path = r
+        if m[0] == "ziter" and not any(o[0] == "mk" and o[2] == "biter" for o in ops):
+            ops = [("mk", "/B", "biter", None, [("BaseIterativeData", "BaseIterativeData_t")])] + ops
+        ops = ops + [("mk", path, m[0], m[1], m[3])]
+        inner = path
+        for name, _ in m[3]:
+            inner = join(inner, name)
+        for lab, mode, bound in CAT.get(m[3][-1][1], [])[:3]:
+            ops.append((mode, inner, m[3][-1][1], lab, TAG.get(lab, "N") + "k", 5 % (bound or 99)))
+        top = m[3][0][0]
+        if m[0] != "biter":                      # (deleting BaseIterativeData_t hides the ZoneIterativeData_t of every zone on read)
+            ops += [("d", path, m[2], top), ("mk", path, m[0], m[1], m[3])]
+        backend, compress = combos[mi % len(combos)]
+        dist["focused"] += 1
+        covered.setdefault("%s/%s" % (m[2], m[3][0][1]), set()).update({"create", "delete-single"} if m[0] != "biter" else {"create"})
+        fails = one(ops, backend, compress, "single child %s under %s" % (m[0], m[2]))
+        if fails:
+            report(ops, backend, compress, fails, "single child %s under %s" % (m[0], m[2]))
+            stop = True
     # ---- (b) random whole-tree histories
     nrand = 400 if big else 14
     for j in range(nrand):
